@@ -1089,7 +1089,11 @@ class TemplateModel(object):
             # take only first component
             features = self.sparse_features.data[ispi, :, 0]
             features = np.maximum(features, 0) ** 2  # takes only positive values into account
-            ichannels = self.sparse_features.cols[self.spike_templates[ispi]].astype(np.uint32)
+            if self.sparse_features.cols is not None:
+                ichannels = self.sparse_features.cols[self.spike_templates[ispi]].astype(np.uint32)
+            else:
+                # Dense features: the columns are the channels.
+                ichannels = np.tile(np.arange(features.shape[1]), (len(ispi), 1))
             # features = np.square(self.sparse_features.data[ispi, :, 0])
             # ichannels = self.sparse_features.cols[self.spike_templates[ispi]].astype(np.int64)
             ypos = self.channel_positions[ichannels, 1]
